@@ -16,6 +16,7 @@ impl U256 {
 #[derive(PartialEq, Eq, Structural, Clone, Copy)] pub struct ErrText(pub u64);
 pub enum EVMError<E> { Transaction(InvalidTransaction), Header(u8), Database(E), Custom(ErrText) }
 pub struct GrevmError<E> { pub txid: TxId, pub error: EVMError<E> }
+impl<E> GrevmError<E> { #[verifier::external_body] pub fn clone(&self) -> (r: Self) ensures r == *self { unimplemented!() } }
 /// revm::DatabaseRef: every answer is a function of the (immutable) database value
 pub trait DatabaseRef {
     type Error;
